@@ -206,9 +206,11 @@ def rt : P String := do
         match readObj vd kind sh with
         | some rd' => (match rd' (writeObj pr x) with | .ok y' _ => y' == x | _ => false)
         | none => false
+      -- the difference is attributed to a writer precision / to the count detour only when the model with the
+      -- source's own facts reproduces it and the model with the fact repaired does not
       let explained : String :=
-        if ymOK && reload prec17 viaDouble then "_low_precision"
-        else if ymOK && reload prec17 false then "_count_via_double"
+        if ymOK && !reload prec viaDouble && reload prec17 viaDouble then "_low_precision"
+        else if ymOK && !reload prec17 viaDouble && reload prec17 false then "_count_via_double"
         else ""
       let v := v.failIf differs s!"{comp} roundtrip_differs{explained}"
       let v := v.failIf (dd != 0) s!"{comp} roundtrip_decision_differs {dd}"
@@ -255,6 +257,9 @@ def corruptToks (t : Stream) (i : Nat) (c : String) : Option Stream :=
     | "abc" => some (pre ++ "abc".toList :: post)
     | "hugeidx" => some (pre ++ "4000000000".toList :: post)
     | "hugeidx2" => some (pre ++ "99999999999999999999".toList :: post)
+    | "plus1" =>
+        if x.all isDig && x.length < 18 then some (pre ++ printN (natOfDigits x + 1) :: post)
+        else some (pre ++ ('1' :: x) :: post)
     | _ => none
 
 def corruptGo (kind : String) (sh : Shape) (comp : String) (rd : Rd Obj) (full : Stream) : Nat → Verdict → P Verdict
